@@ -207,8 +207,9 @@ func runC19(r *Run, verifDir string) {
 	r.Rule("C19.W3", "order: stage k gets the continuation for k+1, core runs iff position >= len(chain), first position is 0, registration appends in order", 6)
 	r.Rule("C19.W4", "the middleware slices are written only by registration functions and constructors", 3)
 	r.Rule("C19.W5", "an invocation of a continuation runs the remainder of the chain exactly once on every path", 3)
-	if len(chains) < 3 {
-		r.Unk("C19.W1", "chains", token.NoPos, "%d middleware continuations found; 3 confirmed on the pinned tree", len(chains))
+	folds := findFoldChains(r)
+	if len(chains)+folds < 3 {
+		r.Unk("C19.W1", "chains", token.NoPos, "%d middleware continuations found; 3 confirmed on the pinned tree", len(chains)+folds)
 	}
 	for _, c := range chains {
 		key := fnKey(c.k)
@@ -694,4 +695,300 @@ func derefType(t types.Type) types.Type {
 		return p.Elem()
 	}
 	return t
+}
+
+// findFoldChains recognises, and decides, the other common way to compose a chain: folding it innermost first —
+//
+//	next := core
+//	for _, mw := range slices.Backward(chain) {   // or: for i := len(chain)-1; i >= 0; i--
+//		inner := next
+//		next = func(ctx, msg) { return mw(inner, ctx, msg) }
+//	}
+//	return next(ctx, msg)
+//
+// W1: the stage and its continuation are per-iteration cells stored once and never written again; W2/W5: the
+// continuation is a single call of the stage with its continuation and its own two parameters, returned unchanged;
+// W3: the iteration runs from the last registered middleware to the first, the fold starts from the core handler and
+// the outermost continuation is the one invoked. Returns the number of fold chains found.
+func findFoldChains(r *Run) int {
+	p := r.P
+	n := 0
+	for _, k := range p.OwnFuncs() {
+		if k.Parent() == nil || len(k.Params) != 2 || len(k.FreeVars) != 2 {
+			continue
+		}
+		if pk := idOf(k).pkg; pk != cliPath && pk != srvPath {
+			continue
+		}
+		// body: one call of *mwCell(*innerCell, ctx, msg), results returned
+		var calls []*ssa.Call
+		other := false
+		allInstrs(k, func(in ssa.Instruction) {
+			switch x := in.(type) {
+			case *ssa.Call:
+				calls = append(calls, x)
+			case *ssa.Store, *ssa.Go, *ssa.Defer, *ssa.MapUpdate, *ssa.Send:
+				other = true
+			}
+		})
+		if len(calls) != 1 || len(k.Blocks) != 1 {
+			continue
+		}
+		call := calls[0]
+		mwLd, ok := call.Call.Value.(*ssa.UnOp)
+		if !ok || len(call.Call.Args) != 3 {
+			continue
+		}
+		mwFV, ok := mwLd.X.(*ssa.FreeVar)
+		if !ok {
+			continue
+		}
+		nm, isNamed := types.Unalias(mwLd.Type()).(*types.Named)
+		if !isNamed || !strings.HasSuffix(nm.Obj().Name(), "Middleware") {
+			continue
+		}
+		inLd, ok := call.Call.Args[0].(*ssa.UnOp)
+		if !ok {
+			continue
+		}
+		inFV, ok := inLd.X.(*ssa.FreeVar)
+		if !ok {
+			continue
+		}
+		n++
+		key := fnKey(k)
+		// ---- W2 / W5
+		fwd := call.Call.Args[1] == ssa.Value(k.Params[0]) && call.Call.Args[2] == ssa.Value(k.Params[1])
+		retOK := false
+		if ret, ok := k.Blocks[0].Instrs[len(k.Blocks[0].Instrs)-1].(*ssa.Return); ok && len(ret.Results) == 2 {
+			e0, ok0 := ret.Results[0].(*ssa.Extract)
+			e1, ok1 := ret.Results[1].(*ssa.Extract)
+			retOK = ok0 && ok1 && e0.Tuple == ssa.Value(call) && e1.Tuple == ssa.Value(call) && e0.Index == 0 && e1.Index == 1
+		}
+		switch {
+		case !fwd:
+			r.Bad("C19.W2", key, call.Pos(), "the stage is not given the continuation's own context and message: a message or context substituted by the previous middleware is ignored")
+		case !retOK || other:
+			r.Bad("C19.W2", key, k.Pos(), "the continuation does not return its callee's results unchanged")
+		default:
+			r.OK("C19.W2", key, call.Pos(), "fold form: the stage receives (its continuation, ctx, msg) of this continuation; results are returned as they are")
+		}
+		r.OK("C19.W5", key, k.Pos(), "fold form: a single block with exactly one call of the stage")
+		// ---- the builder
+		b := k.Parent()
+		var mk *ssa.MakeClosure
+		allInstrs(b, func(in ssa.Instruction) {
+			if mc, ok := in.(*ssa.MakeClosure); ok && mc.Fn == ssa.Value(k) {
+				mk = mc
+			}
+		})
+		if mk == nil || len(mk.Bindings) != 2 {
+			r.Unk("C19.W1", key, k.Pos(), "fold form: creation of the continuation not found")
+			continue
+		}
+		var mwCell, inCell ssa.Value
+		for i, fv := range k.FreeVars {
+			if fv == mwFV {
+				mwCell = mk.Bindings[i]
+			}
+			if fv == inFV {
+				inCell = mk.Bindings[i]
+			}
+		}
+		// single store into a cell; returns the stored value
+		single := func(cell ssa.Value) (ssa.Value, int) {
+			al, ok := cell.(*ssa.Alloc)
+			if !ok {
+				return nil, -1
+			}
+			var val ssa.Value
+			cnt := 0
+			for _, ref := range *al.Referrers() {
+				if st, ok := ref.(*ssa.Store); ok && st.Addr == cell {
+					val = st.Val
+					cnt++
+				}
+			}
+			return val, cnt
+		}
+		mwVal, nMw := single(mwCell)
+		inVal, nIn := single(inCell)
+		if nMw != 1 || nIn != 1 {
+			r.Bad("C19.W1", key, mk.Pos(), "fold form: the stage or its continuation is kept in a variable that is written %d/%d time(s) (not a per-iteration cell assigned once): continuations created in different iterations, or invoked several times, do not each keep their own stage and remainder", nMw, nIn)
+		} else {
+			r.OK("C19.W1", key, mk.Pos(), "fold form: stage and continuation are per-iteration cells assigned once before the continuation is created")
+		}
+		// inner = current value of the accumulator `next`
+		var nextCell ssa.Value
+		if ld, ok := inVal.(*ssa.UnOp); ok && ld.Op == token.MUL {
+			nextCell = ld.X
+		}
+		// the accumulator is then replaced by the new continuation
+		accOK := false
+		allInstrs(b, func(in ssa.Instruction) {
+			st, ok := in.(*ssa.Store)
+			if !ok || nextCell == nil || st.Addr != nextCell {
+				return
+			}
+			v := st.Val
+			if ct, ok := v.(*ssa.ChangeType); ok {
+				v = ct.X
+			}
+			if v == ssa.Value(mk) {
+				accOK = true
+			}
+		})
+		// the stage: an element of the middleware slice, visited from last to first
+		top := b
+		order := ""
+		if b.Synthetic == "range-over-func yield" && b.Parent() != nil {
+			top = b.Parent()
+			// mw = second yield parameter; the sequence = slices.Backward(<middleware slice field>)
+			if len(b.Params) == 2 && mwVal == ssa.Value(b.Params[1]) {
+				allInstrs(top, func(in ssa.Instruction) {
+					c, ok := in.(*ssa.Call)
+					if !ok || len(c.Call.Args) != 1 {
+						return
+					}
+					mcl, ok := c.Call.Args[0].(*ssa.MakeClosure)
+					if !ok || mcl.Fn != ssa.Value(b) {
+						return
+					}
+					seq, ok := c.Call.Value.(*ssa.Call)
+					if !ok {
+						return
+					}
+					id := callID(&seq.Call)
+					if len(seq.Call.Args) == 1 && isMiddlewareSlice(seq.Call.Args[0].Type()) {
+						switch {
+						case id.pkg == "slices" && id.name == "Backward":
+							order = "backward"
+						case id.pkg == "slices" && (id.name == "All" || id.name == "Values"):
+							order = "forward"
+						}
+					}
+				})
+			}
+		} else if ld, ok := mwVal.(*ssa.UnOp); ok && ld.Op == token.MUL {
+			if ia, ok := ld.X.(*ssa.IndexAddr); ok && isMiddlewareSlice(ia.X.Type()) {
+				// index loop: the induction variable decreases (phi with an edge idx-1) and starts at len-1
+				idx := ia.Index
+				if ph, ok := idx.(*ssa.Phi); ok {
+					dec, startLast := false, false
+					for _, e := range ph.Edges {
+						if bo, ok := e.(*ssa.BinOp); ok {
+							if k1, isK := constIntVal(bo.Y); isK && k1 == 1 && bo.Op == token.SUB {
+								if bo.X == ssa.Value(ph) {
+									dec = true
+								} else if _, isLen := lenOperand(bo.X); isLen {
+									startLast = true
+								}
+							}
+							if k1, isK := constIntVal(bo.Y); isK && k1 == 1 && bo.Op == token.ADD && bo.X == ssa.Value(ph) {
+								order = "forward"
+							}
+						}
+					}
+					if dec && startLast {
+						order = "backward"
+					}
+				} else if bo, ok := idx.(*ssa.BinOp); ok && bo.Op == token.ADD {
+					// rotated `for range` loops index with phi+1: ascending
+					order = "forward"
+				}
+			}
+		}
+		// the fold starts from the core and its result is what the top function invokes
+		coreOK, callOK := false, false
+		if al, ok := nextCell.(*ssa.FreeVar); ok && b != top {
+			// the accumulator lives in the top function: find the binding
+			allInstrs(top, func(in ssa.Instruction) {
+				if mcl, ok := in.(*ssa.MakeClosure); ok && mcl.Fn == ssa.Value(b) {
+					for i, fv := range b.FreeVars {
+						if fv == al {
+							nextCell = mcl.Bindings[i]
+						}
+					}
+				}
+			})
+			// re-check the accumulator store inside the yield closure against the free variable
+			allInstrs(b, func(in ssa.Instruction) {
+				if st, ok := in.(*ssa.Store); ok && st.Addr == ssa.Value(al) {
+					v := st.Val
+					if ct, ok := v.(*ssa.ChangeType); ok {
+						v = ct.X
+					}
+					if v == ssa.Value(mk) {
+						accOK = true
+					}
+				}
+			})
+		}
+		if cell, ok := nextCell.(*ssa.Alloc); ok {
+			for _, ref := range *cell.Referrers() {
+				switch x := ref.(type) {
+				case *ssa.Store:
+					v := x.Val
+					if ct, ok := v.(*ssa.ChangeType); ok {
+						v = ct.X
+					}
+					if mcl, ok := v.(*ssa.MakeClosure); ok {
+						if f, ok := mcl.Fn.(*ssa.Function); ok && f.Object() != nil && strings.Contains(f.Synthetic, "bound method") {
+							coreOK = true
+						}
+					}
+				case *ssa.UnOp:
+					for _, r2 := range *x.Referrers() {
+						if c2, ok := r2.(*ssa.Call); ok && c2.Call.Value == ssa.Value(x) && c2.Parent() == top && len(c2.Call.Args) == 2 {
+							callOK = true
+						}
+					}
+				}
+			}
+		}
+		// accumulator kept in an SSA register (nothing captures it): a phi of the core and of the new continuation
+		if ph, ok := inVal.(*ssa.Phi); ok && nextCell == nil {
+			for _, e := range ph.Edges {
+				v := e
+				if ct, ok := v.(*ssa.ChangeType); ok {
+					v = ct.X
+				}
+				if v == ssa.Value(mk) {
+					accOK = true
+				}
+				if mcl, ok := v.(*ssa.MakeClosure); ok {
+					if f, ok := mcl.Fn.(*ssa.Function); ok && f.Object() != nil && strings.Contains(f.Synthetic, "bound method") {
+						coreOK = true
+					}
+				}
+			}
+			for _, ref := range *ph.Referrers() {
+				if c2, ok := ref.(*ssa.Call); ok && c2.Call.Value == ssa.Value(ph) && len(c2.Call.Args) == 2 {
+					callOK = true
+				}
+			}
+		}
+		w3 := ""
+		switch {
+		case order == "forward":
+			w3 = "the chain is folded over the middlewares in registration order, so the LAST registered middleware ends up outermost: the stages run in reverse registration order"
+		case order != "backward":
+			w3 = "fold form: the order in which the middlewares are visited is not recognised (expected slices.Backward or a descending index loop)"
+		case !accOK:
+			w3 = "fold form: the new continuation does not replace the accumulator it wrapped"
+		case !coreOK:
+			w3 = "fold form: the fold does not start from the core handler (a bound method of the package)"
+		case !callOK:
+			w3 = "fold form: the outermost continuation is not what the function invokes"
+		}
+		if w3 == "" {
+			r.OK("C19.W3", key, mk.Pos(), "fold form: middlewares wrapped from the last registered to the first around the core handler; the outermost continuation is invoked")
+			r.OK("C19.W3", key+"/start", top.Pos(), "fold form: the outermost continuation wraps the first registered middleware")
+		} else if strings.HasPrefix(w3, "fold form: the order") {
+			r.Unk("C19.W3", key, mk.Pos(), "%s", w3)
+		} else {
+			r.Bad("C19.W3", key, mk.Pos(), "%s", w3)
+		}
+	}
+	return n
 }
